@@ -10,10 +10,17 @@ func init() {
 // (tip, lookups, stream, a following Save) as it was; re-submitting a known header is a no-op.
 func VerifC08Verdict() {
 	steps := verifParam("steps", 4)
-	maxDepth := pick("maxdepth", 3)
+	maxDepth := pick("maxdepth", verifParam("maxdepthrange", 3))
 	h := newHist(maxDepth)
-	sub := h.subscribe()
 	accepted := []bool{true}
+	if verifParam("rich", 0) == 1 {
+		h.cfg.MaxBranchDepth = 1000
+		for range h.richState() {
+			accepted = append(accepted, true)
+		}
+		h.cfg.MaxBranchDepth = maxDepth
+	}
+	sub := h.subscribe()
 	hasChild := func(p int) bool {
 		for i := range h.hdr {
 			if accepted[i] && h.parent[i] == p {
